@@ -77,7 +77,7 @@ def generate(rng, index, tier):
     if index % 997 == 13:
         # a fork storm: as many threads as a count the source names each announce a process (or a thread) and none of the name
         # strings is in the dump
-        n = worlds.dict_size(rng, 70000) or 4000
+        n = worlds.dict_size(rng, 70000, k=index // 997) or 4000
         kind = rng.pick(['TRACE_DATA_EXEC', 'TRACE_DATA_NEWTHREAD', 'TRACE_DATA_EXEC'])
         crowd = [{'tid': 1000 + i, 'ops': [{'k': 'one', 'name': kind, 'q': 0, 'a': [200000 + i, 5, 0, 0]}]} for i in range(n)]
         crowd.append({'tid': 300, 'ops': worlds.gen_ops(rng, worlds.Ctx(0, 300), 3, {'bsd': 2, 'tracedom': 2}, depth=1)})
@@ -97,7 +97,7 @@ def generate(rng, index, tier):
         # an operation whose END was lost, thousands of later records of that thread, then the thread starts another one
         n = worlds.LONG_SIZES[(index // 991) % len(worlds.LONG_SIZES)]
         if (index // 991) % 3 == 2:
-            n = worlds.dict_size(rng, 70000 if tier == 'quick' else 270000) or n      # right at a count the source names
+            n = worlds.dict_size(rng, 70000 if tier == 'quick' else 270000, k=(index // 991) // 3) or n      # right at a count the source names
         ctx = worlds.Ctx(0, 300)
         first = worlds.op_long_window(rng, 'BSC_read', n)
         first['noend'] = rng.chance(0.7)
